@@ -200,14 +200,15 @@ impl Manifest {
 //@ rewrite-re X7 `(?s)fn read_mani<P: AsRef<Path>>\(\s*path: P,\s*\) -> Result<\(BTreeSet<String>, BTreeMap<char, String>\), SError>` => `fn read_mani(path: &MPath) -> Result<(StrSet, InfoMap, Ghost<Seq<EditView>>), SError>`
 //@ rewrite X7 `BTreeSet::new()` => `StrSet::new()`
 //@ rewrite X7 `BTreeMap::new()` => `InfoMap::new()`
-//@ rewrite X13 `for edit in iter {` => `for eidx in 0..iter.len() { let edit = iter.edit_at(eidx);`
+//@ rewrite X13 `for edit in iter {` => `let mut eidx: usize = 0; while eidx < iter.len() { let edit = iter.edit_at(eidx); eidx += 1;`
 //@ rewrite X7 `Ok((strs, info))` => `Ok((strs, info, Ghost(iter.edits())))`
 //@ post <<
         // reopening computes the state after all the edits the file holds, applied whole and in order
         r is Ok ==> r->Ok_0.0@ =~= state_after(r->Ok_0.2@, r->Ok_0.2@.len() as int).0 && r->Ok_0.1@ =~= state_after(r->Ok_0.2@, r->Ok_0.2@.len() as int).1,
 //@ >>
-//@ loop `for eidx in` <<
-            invariant /* contract-inv */ strs@ =~= state_after(iter.edits(), eidx as int).0, /* contract-inv */ info@ =~= state_after(iter.edits(), eidx as int).1,
+//@ loop `while eidx <` <<
+            invariant eidx <= iter.edits().len(), /* contract-inv */ strs@ =~= state_after(iter.edits(), eidx as int).0, /* contract-inv */ info@ =~= state_after(iter.edits(), eidx as int).1,
+            decreases iter.edits().len() - eidx,
 //@ >>
 //@ end
 }
